@@ -202,6 +202,8 @@ def rule_secret_branches(S, res):
                         for ss in S.send_sites:
                             if ss.body.owner == b.owner and any(n in fwd for n in fg.operand_nodes(ss.bk, ss.term["args"][-1])):
                                 probs.append((x, "the Some/None pattern of a message slot"))
+            if not probs:
+                res.ok("R7.2", "%s|branch@%s" % (b.owner.replace("polytune::", ""), fl(t["sp"]).rsplit(":", 1)[-1]), where(b, bi), "secret-conditioned branch, control region of %d block(s) without channel op / await / length change / slot decision" % len(region))
             if probs:
                 bad += 1
                 x, what = probs[0]
